@@ -346,10 +346,31 @@ inductive StepObs where
 
 abbrev Obs := List StepObs
 
-/-- the regular-expression engine (the `regex` crate) is a parameter of model and reference:
-    `valid p` = `Regex::new(p).is_ok()`, `matches p s` = `Regex::new(p).unwrap().is_match(s)` -/
+/-- What model and reference take as given (uninterpreted in every theorem):
+    the regular-expression engine (the `regex` crate) — `valid p` = `Regex::new(p).is_ok()`,
+    `matches p s` = `Regex::new(p).unwrap().is_match(s)` — and the textual form of an extended
+    community (`ext_community_to_string`, which involves `f32` formatting). -/
 structure RegexEnv where
   valid : String → Bool
   «matches» : String → String → Bool
+  extStr : Bytes → Option String
+
+/-- the arguments of `PolicyAssignment::apply` that do not change during an evaluation -/
+structure Ctx where
+  src : Source
+  net : Addr
+  mask : Nat
+  rpki : Option RpkiSt
+  confed : Bool
+  localAddr : Addr
+  peerAddr : Addr
+  origNh : Option Addr
+  deriving Repr, Inhabited
+
+/-- the part of a route an evaluation rewrites: attribute vector and next hop -/
+structure St where
+  attrs : List Attr
+  nh : Option Addr
+  deriving DecidableEq, Repr, Inhabited
 
 end Rbgp.Policy
